@@ -5,6 +5,7 @@
 #define KD_MAXE 2                      /* at most 2 erase calls */
 #define KD_CODE(x, y, v) ((int64_t)(x) * 6 + (int64_t)(y) * 2 + (int64_t)(v)) /* entry code: x,y in 0..2, v in 0..1 */
 #define KD_NCODES 18
+#define KD_CODE3(x, y, z, v) ((((int64_t)(x) * 3 + (int64_t)(y)) * 3 + (int64_t)(z)) * 2 + (int64_t)(v)) /* 3-D entry code: x,y,z in 0..2, v in 0..1 */
 #define KD_ERASE 0                     /* [KD_MAXE] result of erase i (0/1) */
 #define KD_SIZE (KD_ERASE + KD_MAXE)   /* size() */
 #define KD_AT (KD_SIZE + 1)            /* at(q): 100 + value, or -1 = out_of_range */
